@@ -77,7 +77,12 @@ NUMERIC = ("exp(n / 10) + n ** 3 + sum(for i in 1..40 return (n + i) * m / 7) + 
 
 POWERS = ("{p: for i in 1..12 return (n + i) ** 2, q: sum(for i in 1..25 return exp(i / (abs(m) + 3))), "
           "r: median([n + 1, m + 2, n - m, 1.5]), e: exp(m / 5) * exp(n / 5), x: n ** 7 - m ** 5, "
-          "mean: mean(for i in 1..30 return n * i - m), sd: stddev([n, m, n + m, n - m, n * m])}")
+          "mean: mean(for i in 1..30 return n * i - m), sd: stddev([n, m, n + m, n - m, n * m]), "
+          # every class of exponent (the C library takes a different route for each): negative integers over different bases, negative
+          # and positive fractions, zero, one, large integers, a negative base
+          "ni: for i in 1..12 return (abs(n) + i) ** -i, inst: (abs(m) + 1) * 0.004 / (1 - (1 + (abs(n) + 1) / 1200) ** -(12 + abs(floor(m)))), "
+          "nf: (abs(n) + 2) ** -0.5, pf: (abs(m) + 2) ** 1.75, z: (n + 1000) ** 0, o: (m - 1000) ** 1, "
+          "big: (1 + abs(n) / 100000) ** 4000, nb: (-(abs(m) + 1.5)) ** 3 + (-(abs(n) + 2)) ** -3}")
 
 # every FeelNumber operation that takes a decimal context, on NON-integral arguments (integral ones return early in the C library):
 # floor/ceiling/decimal/modulo/abs/even/odd/number/string/comparison next to / and **
